@@ -160,6 +160,16 @@ def gen_file_cases(tier, seed):
                     if max(coords) < min(WIDTH_CLASSES[wc]):
                         coords = (WIDTH_CLASSES[wc][-1],) + coords[1:]
                     cases.append((arity, rnd.choice(WIDTH_CLASSES[wcom]), [(coords, rows)]))
+    # families whose index blocks are byte-identical but are laid out with a different arity / number of entries
+    # (saved and loaded one after the other in the same process)
+    for flat in ([1, 2, 3, 4], [7, 300, 300, 7, 9, 11, 0, 5, 70000, 1, 2, 3], [0, 1, 2, 3, 4, 5, 6, 7, 8, 9, 10, 11]):
+        for arity in (1, 2, 3, 4, 2, 1, 4):
+            if len(flat) % arity:
+                continue
+            keys = [tuple(flat[i:i + arity]) for i in range(0, len(flat), arity)]
+            if len(set(keys)) != len(keys):
+                continue
+            cases.append((arity, 0, [(k, [j, j + 5]) for j, k in enumerate(keys)]))
     # several entries
     n = 120 if tier == "quick" else 3000
     for _ in range(n):
